@@ -51,6 +51,10 @@ def run(ctx):
     ctx.rule("R09.b", "every operator./math. function referenced by a Python-3 special method of rx exists in that stdlib module", floor=40)
     ctx.rule("R09.c", "each reflected method applies the same function as its forward form and passes reverse=True; forward forms do not", floor=26)
     ctx.rule("R09.d", "each forward/comparison/unary special method applies the stdlib function the data model assigns to it; _eval_operation swaps the operands iff reverse", floor=25)
+    ctx.rule("R09.e", "invalidation coverage: _setup_invalidations registers _invalidate_current, unconditionally and unfiltered, on every parameter in self._internal_params "
+                      "(grouped by owner), and _invalidate_obj on the root's function parameters", floor=2)
+    ctx.rule("R09.f", "invalidation effect: on every path except the own-trigger early return _invalidate_current marks the node dirty AND clears the stored error; "
+                      "_invalidate_obj marks the root object dirty and clears the error; _resolve stores the error before re-raising and clears the dirty flag only after a completed evaluation", floor=3)
     ctx.not_decided += ["that .rx.value equals the plain-Python result after arbitrary read/update histories (cache coherence) -- not statically decidable here and NOT claimed",
                         "the .rx helper namespace (pipe, where, and_, ...) and rx.watch delivery"]
     cls = ctx.repo.cls(RX)
@@ -140,3 +144,72 @@ def run(ctx):
                             ok = True
     (ctx.ok if ok else ctx.fail)("R09.d", ev, ev.node, "_eval_operation calls fn(arg0, obj, ...) iff reverse, else fn(obj, ...)" if ok else
                                  "_eval_operation does not swap the operands exactly when the operation is reflected")
+
+    # ---------------------------------------------------------------- R09.e
+    si = ctx.repo.method(RX, "_setup_invalidations")
+    regs = []
+    for lp in ast.walk(si.node):
+        if not isinstance(lp, ast.For):
+            continue
+        for st in lp.body:
+            for c in ast.walk(st):
+                if isinstance(c, ast.Call) and isinstance(c.func, ast.Attribute) and c.func.attr in ("_watch", "watch") and c.args \
+                        and norm(c.args[0]) in ("self._invalidate_current", "self._invalidate_obj"):
+                    regs.append((lp, st, c))
+    cur = [r for r in regs if norm(r[2].args[0]) == "self._invalidate_current"]
+    if not cur:
+        ctx.fail("R09.e", si, si.node, "no invalidation watcher is registered for the expression's own parameters", key=si.qualname + "::no-registration")
+    for lp, st, c in cur:
+        it = norm(lp.iter)
+        names = c.args[1] if len(c.args) > 1 else None
+        filtered = isinstance(st, (ast.If,)) or (isinstance(names, (ast.ListComp, ast.GeneratorExp)) and any(g.ifs for g in names.generators)) \
+            or any(isinstance(x, (ast.ListComp, ast.GeneratorExp)) and any(g.ifs for g in x.generators) for x in ast.walk(lp.iter))
+        whole = "self._internal_params" in it
+        if whole and not filtered and st in lp.body and isinstance(st, ast.Expr):
+            ctx.ok("R09.e", si, st, "every parameter of self._internal_params gets the _invalidate_current watcher")
+        else:
+            ctx.fail("R09.e", si, st, "the _invalidate_current watcher is not registered on every parameter of self._internal_params (%s): an update through a skipped "
+                                      "parameter leaves this node's cache clean and a later read returns the old value" % (
+                                          "filtered/conditional registration" if whole else "iterates %s" % it[:60]),
+                     key=si.qualname + "::partial-invalidation",
+                     input="b = a + 1; d = b * 2; update the root; read b, then d -> d is stale")
+    obj = [r for r in regs if norm(r[2].args[0]) == "self._invalidate_obj"]
+    (ctx.ok if obj else ctx.fail)("R09.e", si, obj[0][1] if obj else si.node, "root function parameters get the _invalidate_obj watcher" if obj else
+                                  "no _invalidate_obj watcher is registered for the pipeline root")
+
+    # ---------------------------------------------------------------- R09.f
+    for mname, flag_target, flag_text in (("_invalidate_current", "self._dirty", "dirty flag"), ("_invalidate_obj", "self._root._dirty_obj", "root dirty flag")):
+        g = ctx.repo.method(RX, mname)
+        gc = ctx.facts.cfg(g)
+
+        def store_of(n, target, value_ok):
+            return n.kind == "stmt" and isinstance(n.ast, ast.Assign) and any(norm(t) == target for t in n.ast.targets) and value_ok(n.ast.value)
+        dirty = {n.id for n in gc.live_nodes() if store_of(n, flag_target, lambda v: isinstance(v, ast.Constant) and v.value is True)}
+        clear = {n.id for n in gc.live_nodes() if store_of(n, "self._error_state", lambda v: isinstance(v, ast.Constant) and v.value is None)}
+        # early return allowed only on the "all events come from my own trigger" branch
+        from engine.cfg import decompose
+        own = {n.id for n in gc.live_nodes() if n.kind == "br" and any(
+            t is True and isinstance(e, ast.Call) and norm(e.func) == "all" and "self._trigger" in norm(e) for e, t in decompose(n.ast, n.polarity))}
+        bad = None
+        for need, label in ((dirty, flag_text + " set"), (clear, "stored error cleared")):
+            if not need:
+                bad = bad or "never: %s" % label
+                continue
+            reach = gc.reachable_from([gc.entry], stop=lambda n: n.id in need or n.id in own, labels={"n", "t", "f"})
+            if any(r is gc.exit for r in reach):
+                bad = bad or "a path returns without: %s" % label
+        if bad:
+            ctx.fail("R09.f", g, g.node, "%s: %s -- an invalidation that does not both mark the cache dirty and drop the stored exception leaves a stale value or a sticky error" % (mname, bad),
+                     key="%s::incomplete-invalidation" % g.qualname,
+                     input="c = a / b with b=0 raises; set b=3 -> still raises (error not cleared) / still old value (not dirty)")
+        else:
+            ctx.ok("R09.f", g, g.node, "every path (other than the own-trigger return) sets the %s and clears the stored error" % flag_text)
+    rs = ctx.repo.method(RX, "_resolve")
+    rc = ctx.facts.cfg(rs)
+    handlers = [h for t in ast.walk(rs.node) if isinstance(t, ast.Try) for h in t.handlers if h.type is not None and norm(h.type) == "Exception"]
+    ok = bool(handlers) and all(any(isinstance(st, ast.Assign) and any(norm(t) == "self._error_state" for t in st.targets) and isinstance(st.value, ast.Name)
+                                    and st.value.id == h.name for st in h.body) and any(isinstance(st, ast.Raise) for st in h.body) for h in handlers)
+    first = next((st for st in rs.node.body if not (isinstance(st, ast.Expr) and isinstance(st.value, ast.Constant))), None)
+    raises_stored = isinstance(first, ast.If) and norm(first.test) == "self._error_state" and any(isinstance(x, ast.Raise) for x in first.body)
+    (ctx.ok if ok and raises_stored else ctx.fail)("R09.f", rs, rs.node, "_resolve re-raises a stored error first and stores a new one before re-raising" if ok and raises_stored else
+                                                   "_resolve does not store the evaluation error before re-raising / does not re-raise a stored error first")
